@@ -121,6 +121,7 @@ def c01_jobs(tier):
 def c03_jobs(tier):
     jobs = [conc("c03-conc", "c03", require_counters=["subscriptions_with_2plus_consumers", "redeliveries"]),
             sim("c03-seq-model", "c05", require_nontrivial=False),
+            sim("c03-push-vs-pull", "c14", params={"maxlen": 1}, require_counters=["competitor_deliveries"], require_nontrivial=False),
             conc("c03-conc-c01mix", "c01", params={"n": 1500 if tier == "quick" else 20000})]
     if tier == "thorough":
         jobs.append(conc("c03-conc-h2", "c03", transport="h2"))
@@ -199,7 +200,7 @@ PROPERTIES = {
             "level_note": CONC_NOTE, "assumptions": ["names are not reused inside a data-plane episode, so a name is an incarnation"]},
     "C03": {"level": "exploration", "jobs": c03_jobs, "engine": "dvsim",
             "technique": "runtime monitoring of concurrent consumer histories: lease-interval exclusivity, ack-id uniqueness and per-response duplicate checks on a virtual clock",
-            "level_text": "3-8 competing consumers of mixed kinds share one subscription with publishers, ackers, nackers and deadline modifiers while virtual time advances; the lease checker computes for every pair of consecutive deliveries of a message the earliest instant the first lease could have ended (deadline, every possibly applied modification, every nack call) and flags a second hand-out before it, any ack-id string seen twice on a subscription, and any response listing a message twice. Hand-out instants are exact on the paused clock. Schedules are sampled.",
+            "level_text": "(Push rounds as a consumer kind: in five episodes of the scripted-endpoint scenario a unary puller competes with the push loop for one subscription and no message may be POSTed while the puller's lease runs, nor pulled while its POST is pending.) 3-8 competing consumers of mixed kinds share one subscription with publishers, ackers, nackers and deadline modifiers while virtual time advances; the lease checker computes for every pair of consecutive deliveries of a message the earliest instant the first lease could have ended (deadline, every possibly applied modification, every nack call) and flags a second hand-out before it, any ack-id string seen twice on a subscription, and any response listing a message twice. Hand-out instants are exact on the paused clock. Schedules are sampled.",
             "level_note": CONC_NOTE, "assumptions": []},
     "C08": {"level": "exploration", "jobs": c08_jobs, "engine": "dvsim",
             "technique": "runtime monitoring of concurrent publisher/consumer histories: order checker over Publish responses and first deliveries",
